@@ -145,6 +145,15 @@ def plans_for(prog, tier, rng, vals=(0, 1, 2)):
             if si % 5 == 0:
                 ops.append(("flush", cols[0], ()))
         plans.append(ops[:MAX_EMITS])
+    if cols and any(nd["kind"] == "collect" and nd["m"] for nd in prog):
+        # a bounded container: more arrivals than it holds, before the first flush and between two flushes
+        for k in range(6 if tier == "quick" else 30):
+            seq = [rng.choice(atoms) for _ in range(6)]
+            pat = MD_PATTERNS[k % len(MD_PATTERNS)]
+            ops = [("emit", e, v, pat[i], ()) for i, (e, v) in enumerate(seq)]
+            cut = 1 + k % 3
+            ops = ops[:cut] + [("flush", cols[0], ())] + ops[cut:cut + 3 + k % 2] + [("flush", cols[0], ())]
+            plans.append(ops[:MAX_EMITS])
     # longer random runs with more repeats (duplicates matter for unique / partition_unique)
     for _ in range(4 if tier == "quick" else 25):
         n = rng.randint(5, MAX_EMITS)
